@@ -43,9 +43,9 @@ MAP = {
     "C09_m3": [("C09", "sd2.parse.r80")], "C09_m4": [("C09", "wrap.read_double")],
     "C10_m3": [("C10", "open_fmt.aiff.pcm_u8")], "C10_m4": [("C10", None)],
     "C13_m3": [("C13", None)], "C13_m4": [("C13", None)],
-    "C14_m3": [("C14", None)], "C14_m4": [("C14", "fileio"), ("C19", "fileio")],
+    "C14_m3": [("C14", None)], "C14_m4": [("C14", "fileio.ownership"), ("C19", "fileio.ownership")],
     "C17_m3": [("C17", "cmd.SFC_GET_BROADCAST_INFO")], "C17_m4": [("C17", "cmd.SFC_GET_LOG_INFO")],
-    "C18_m3": [("C18", ".fixed")], "C18_m4": [("C18", "calc.")],
+    "C18_m3": [("C18", ".fixed")], "C18_m4": [("C18", "calc.SFC_CALC_SIGNAL_MAX")],
     "C19_m3": [("C19", None)], "C19_m4": [("C19", None)],
     "C20_m3": [("C20", "g711fd")], "C20_m4": [("C20", "ieee.double64.read")],
     "R_g711_intmin": [("C20", "g711.H_ENCODE_I")], "R_d2sc_clip": [("C02", "sc.WR_D.norm1.clip1")], "R_cmdstr0": [("C17", "cmd.SFC_GET_LIB_VERSION")],
